@@ -13,7 +13,10 @@ Mis(r, ev) ==
   IN  Chk(ev.skip = o.skip, "skip", o.skip, ev.skip)
    \o Chk(ev.acc = o.acc, "accepted-at-call", o.acc, ev.acc)
    \o Chk(ev.thr = o.thr, "exception-at-call", o.thr, ev.thr)
-   \o Chk(ev.reps = o.reps, "reports", o.reps, ev.reps)
+   \* a report whose wording the normaliser does not know (kind "other") is compared by severity only
+   \o Chk(Len(ev.reps) = Len(o.reps) /\ \A ri \in 1..Len(o.reps) :
+             ev.reps[ri].sev = o.reps[ri].sev /\ (ev.reps[ri].kind = "other" \/ ev.reps[ri].kind = o.reps[ri].kind),
+          "reports", o.reps, ev.reps)
    \o Chk(ev.noks = o.noks, "ok-reports", o.noks, ev.noks)
    \o Chk(ev.cl = o.cl, "clause-evaluation", o.cl, ev.cl)
    \o Chk(ev.ist = wantst, "coroutine-state", wantst, ev.ist)
